@@ -112,3 +112,17 @@ Theorem C07_source_hooks_are_the_state_machine : forall pw start finish by_epoch
   gen_step pw start finish by_epoch update_freq initial s h batch epoch = step pw start finish by_epoch update_freq initial s h.
 Proof. exact link_step. Qed.
 Print Assumptions C07_source_hooks_are_the_state_machine.
+
+(* ---- quantized_linear mixes with plain arithmetic (no stop_gradient): the returned expression, regenerated from the source on
+        every run (coq/gen/LinGen.v), IS the interpolation x + f * (xq - x): x at factor 0, xq at factor 1. ---- *)
+From QV Require Import Link.LinLink.
+From QVGen Require LinGen.
+Theorem C07_source_linear_mixture_is_the_interpolation : forall f x xq,
+  LinGen.gen_ql_res f x xq = interp x f xq /\
+  req (LinGen.gen_ql_res (0, 1) x xq) x = true /\ (0 < rden x -> req (LinGen.gen_ql_res (1, 1) x xq) xq = true).
+Proof.
+  intros f x xq. split; [reflexivity|]. split.
+  - exact (interp_zero x xq).
+  - intros H. exact (interp_one x xq H).
+Qed.
+Print Assumptions C07_source_linear_mixture_is_the_interpolation.
